@@ -54,7 +54,10 @@ ALPHABET = {
 EXTRA = {"</rt>": ["e:rt:-"], "<q:a>": ["s:a:q"], "</q:a>": ["e:a:q"], "</doc>": ["e:[document]:-"], "enddata": ["x:-"],
          "wscomment": ["x:-", "d:32,32", "x:1"], "cdata": ["x:-", "d:100", "x:2"], "y": ["d:121,32"], "ff": ["d:12"], "nbsp": ["d:160"],
          # nodes the parser can leave EMPTY (<!---->, <![CDATA[]]> inside <pre>): falsy objects in the links
-         "emptycomment": ["x:-", "d:-", "x:1"], "emptycdata": ["x:-", "d:-", "x:2"], "emptyflush": ["d:-", "x:-"]}
+         "emptycomment": ["x:-", "d:-", "x:1"], "emptycdata": ["x:-", "d:-", "x:2"], "emptyflush": ["d:-", "x:-"],
+         # names are compared exactly as the builder sends them (a builder that does not case-fold may send `Pre`, `SCRIPT`):
+         # they are NOT the configured `pre` / `script`
+         "<Pre>": ["s:Pre:-"], "</Pre>": ["e:Pre:-"], "<SCRIPT>": ["s:SCRIPT:-"], "</SCRIPT>": ["e:SCRIPT:-"], "<A>": ["s:A:-"], "</A>": ["e:A:-"]}
 
 
 def make_builder(cfg, events, attempts=()):
